@@ -88,6 +88,10 @@ type rdShape struct {
 	BigExt  bool   `json:"big_ext"` // entry extension content > 127 / > 255 bytes (2- and 3-byte lengths)
 	Align   string `json:"align"`   // none | entry | exts | sig | next
 	AlignAt int    `json:"align_at"`
+	// the ORDER of the extensions inside crlExtensions (RFC 5280 fixes none) and which unimplemented critical extension a "crit"
+	// document carries: 0 = authorityKeyIdentifier, private, cRLNumber, critical; 1 = critical first; 2 = reversed; 3 = cRLNumber first
+	ExtOrder int `json:"ext_order,omitempty"`
+	CritKind int `json:"crit_kind,omitempty"` // 0 deltaCRLIndicator, 1 issuingDistributionPoint, 2 private OID
 }
 
 var readerKeys = map[string]crypto.Signer{}
@@ -161,7 +165,29 @@ func materialise(d rdDoc, sh rdShape, pad int) (*derbuild.Doc, error) {
 			doc.Exts = append(doc.Exts, pkix.Extension{Id: crlNumberOID, Value: num})
 		}
 		if d.Exts == "crit" {
-			doc.Exts = append(doc.Exts, pkix.Extension{Id: asn1.ObjectIdentifier{2, 5, 29, 27}, Critical: true, Value: derbuild.SmallInt(3)}) // deltaCRLIndicator
+			crit := pkix.Extension{Id: asn1.ObjectIdentifier{2, 5, 29, 27}, Critical: true, Value: derbuild.SmallInt(3)} // deltaCRLIndicator
+			switch sh.CritKind % 3 {
+			case 1: // issuingDistributionPoint { onlyContainsUserCerts TRUE }
+				crit = pkix.Extension{Id: asn1.ObjectIdentifier{2, 5, 29, 28}, Critical: true, Value: []byte{0x30, 0x03, 0x81, 0x01, 0xff}}
+			case 2:
+				crit = pkix.Extension{Id: asn1.ObjectIdentifier{1, 3, 6, 1, 4, 1, 99999, 5}, Critical: true, Value: []byte{0x05, 0x00}}
+			}
+			doc.Exts = append(doc.Exts, crit)
+		}
+		switch sh.ExtOrder % 4 {
+		case 1: // the last one (the critical one, if any) first
+			doc.Exts = append([]pkix.Extension{doc.Exts[len(doc.Exts)-1]}, doc.Exts[:len(doc.Exts)-1]...)
+		case 2:
+			for i, j := 0, len(doc.Exts)-1; i < j; i, j = i+1, j-1 {
+				doc.Exts[i], doc.Exts[j] = doc.Exts[j], doc.Exts[i]
+			}
+		case 3: // cRLNumber (if any) first
+			for i, e := range doc.Exts {
+				if e.Id.Equal(crlNumberOID) {
+					doc.Exts = append([]pkix.Extension{e}, append(append([]pkix.Extension{}, doc.Exts[:i]...), doc.Exts[i+1:]...)...)
+					break
+				}
+			}
 		}
 	}
 	return doc, nil
@@ -430,6 +456,7 @@ func readerShapes(c *vk.Ctx, rng *rand.Rand, i int) rdShape {
 	if !c.Thorough() {
 		sh.Alg = algs[i%2]
 	}
+	sh.ExtOrder, sh.CritKind = rng.Intn(4), rng.Intn(3)
 	return sh
 }
 
@@ -450,6 +477,17 @@ func C06(c *vk.Ctx) {
 		sh := readerShapes(c, rng, i+int(c.Seed))
 		runReaderCase(c, rc, sh, dir)
 		n++
+		if rc.Doc.Exts == "crit" || (rc.Doc.Exts == "number" && i%3 == 0) {
+			// the order of the extensions decides nothing: every order, every kind of unimplemented critical extension
+			for o := 0; o < 4; o++ {
+				s3 := sh
+				s3.ExtOrder, s3.CritKind = o, (o+i)%3
+				if s3 != sh {
+					runReaderCase(c, rc, s3, dir)
+					n++
+				}
+			}
+		}
 		aligns := []string{"entry", "exts", "sig", "alg"}
 		ks := []int{1}
 		deltas := []int{-1, 0, 1}
